@@ -435,6 +435,14 @@ func (r *abciRun) block(steps []Step, restartAfter bool) {
 			r.tokenOwner[m.Symbol] = m.Owner
 		case *tokenv1.MsgTransferTokenOwner:
 			r.tokenOwner[m.Symbol] = m.DstOwner
+		case *servicetypes.MsgCallService:
+			var td sdk.TxMsgData
+			if proto.Unmarshal(tr.Data, &td) == nil && len(td.MsgResponses) == 1 {
+				var cr servicetypes.MsgCallServiceResponse
+				if proto.Unmarshal(td.MsgResponses[0].Value, &cr) == nil {
+					r.ctxs = append(r.ctxs, ctxRef{id: cr.RequestContextId, consumer: m.Consumer})
+				}
+			}
 		case *htlctypes.MsgCreateHTLC:
 			var td sdk.TxMsgData
 			if proto.Unmarshal(tr.Data, &td) == nil && len(td.MsgResponses) == 1 {
